@@ -108,20 +108,31 @@ type AxiomC struct {
 	Line int
 }
 
+type TypeInvC struct {
+	Type    string // T or *T
+	Assumed bool
+	Text    string
+	Expr    CE
+	Reason  string
+	File    string
+	Line    int
+}
+
 type CFile struct {
-	Path    string
-	Specs   []*SpecC
-	Funcs   []*FuncC
-	Lemmas  []*LemmaC
-	Axioms  []*AxiomC
-	NoPanic []string
+	Path     string
+	TypeInvs []*TypeInvC
+	Specs    []*SpecC
+	Funcs    []*FuncC
+	Lemmas   []*LemmaC
+	Axioms   []*AxiomC
+	NoPanic  []string
 }
 
 var clauseRe = regexp.MustCompile(`^(requires|ensures|invariant|decreases|assert|panics)(\[[A-Za-z0-9,]+\])?\s+(.*)$`)
 var specRe = regexp.MustCompile(`^spec\s+([A-Za-z_][A-Za-z0-9_]*)\s*\(([^)]*)\)\s*([^=]+?)\s*(=\s*(.*))?$`)
 var lemmaRe = regexp.MustCompile(`^lemma(\[[A-Za-z0-9,]+\])?\s+([A-Za-z_][A-Za-z0-9_]*)\s*\(([^)]*)\)\s*(induct\s+([A-Za-z_][A-Za-z0-9_]*))?\s*$`)
 
-var topKeywords = []string{"spec ", "axiom ", "lemma ", "lemma[", "func ", "extern ", "funcfield ", "nopanic "}
+var topKeywords = []string{"typeinv ", "assume-typeinv ", "spec ", "axiom ", "lemma ", "lemma[", "func ", "extern ", "funcfield ", "nopanic "}
 var subKeywords = []string{"requires", "ensures", "invariant", "decreases", "assert", "panics", "modifies", "pure", "loop ", "callsite ", "noswallow", "ghost ", "abstracts ", "maypanic", "before:", "after:", "uses ", "ignore ", "pattern "}
 
 func startsWithAny(s string, ks []string) bool {
@@ -234,6 +245,19 @@ func ParseContractFile(path string) (*CFile, error) {
 				sp.Text = body
 			}
 			cf.Specs = append(cf.Specs, sp)
+			curF, curL, curLoop, curCS = nil, nil, nil, nil
+		case strings.HasPrefix(t, "typeinv "), strings.HasPrefix(t, "assume-typeinv "):
+			assumed := strings.HasPrefix(t, "assume-")
+			rest := t[strings.Index(t, " ")+1:]
+			i := strings.Index(rest, ":")
+			if i < 0 {
+				return nil, errf(l, "typeinv needs TYPE: expr")
+			}
+			e, err := ParseCExpr(rest[i+1:])
+			if err != nil {
+				return nil, errf(l, "%v", err)
+			}
+			cf.TypeInvs = append(cf.TypeInvs, &TypeInvC{Type: strings.TrimSpace(rest[:i]), Assumed: assumed, Text: normText(rest[i+1:]), Expr: e, File: path, Line: l.no})
 			curF, curL, curLoop, curCS = nil, nil, nil, nil
 		case strings.HasPrefix(t, "axiom "):
 			rest := strings.TrimPrefix(t, "axiom ")
